@@ -689,6 +689,11 @@ def execute(cfg, ops, leaf=False, full=True):
 # ---- search ------------------------------------------------------------------------------------------------------------
 
 def plans(tier):
+    """[(cfg, depth)].  `small` / `big` are the payload sizes of w / W: W fills a fresh file exactly (roll-over at once),
+    total_size 8 with file_size 4 keeps two full files (pruning between saves), 100 never prunes, file_size 1 rolls at
+    every write.  `full_torn_depth`: up to this history length every state gets every torn-write prefix; longer histories
+    get them at the first state of every distinct restart view (and shortest/middle/longest prefix elsewhere)."""
+
     quick = tier == 'quick'
     out   = []
 
@@ -699,8 +704,10 @@ def plans(tier):
             if quick and mode == 'bin' and (fs, ts) != (4, 8):
                 continue
 
+            depth = 6 if quick else 8 if (mode, fs, ts) == ('txt', 4, 8) else 7 if mode == 'txt' else 6
+
             out.append(({'mode': mode, 'file_size': fs, 'total_size': ts, 'small': 1, 'big': max(2, fs - nl),
-                         'crashes': 2 if quick else 3}, 6 if quick else 8 if (mode, fs, ts) == ('txt', 4, 8) else 7))
+                         'crashes': 2 if quick else 3, 'full_torn_depth': -1 if quick else 6}, depth))
 
     return out
 
@@ -774,8 +781,9 @@ def run(rep):
     rep.assumption('histories continue after a crash inside a save from three representative points (temp file empty / torn in '
         'the middle / complete but not renamed) plus the crash between operations; at every state ALL file-system operation '
         'boundaries of write_head() and close() are crash points that are restarted, checked and drained; torn writes: every '
-        'proper prefix in write_head() ' + ('at the first state of every distinct restart view (log directory, head and temp '
-        'file contents, position to be saved), shortest/middle/longest prefix at the other states' if quick else 'at every state') +
+        'proper prefix in write_head() at the first state of every distinct restart view (log directory, head and temp file '
+        'contents, position to be saved)' + ('' if quick else ' and at every state up to history length 6') +
+        ', shortest/middle/longest prefix at the other states'
         '; shortest/middle/longest prefix in close()')
 
     seen     = [set() for _ in _PLANS]
@@ -839,7 +847,7 @@ def run(rep):
                 if nt:
                     nontriv[ci].add(key)
 
-                nxt.append((ci, hist + (op,), enabled, not quick or leafkey not in leafseen[ci]))
+                nxt.append((ci, hist + (op,), enabled, len(hist) + 1 <= _PLANS[ci][0]['full_torn_depth'] or leafkey not in leafseen[ci]))
 
                 leafseen[ci].add(leafkey)
 
